@@ -958,3 +958,13 @@ func patternsOK(ps []*Term) bool {
 	}
 	return true
 }
+
+// lenRange: a Go length is a non-negative int.
+func lenRange(l *Term) *Term {
+	return And(Ge(l, IntLit(0)), Le(l, IntLit(9223372036854775807)))
+}
+
+// bytesEmpty: the byte string has length zero (what AccAddress.Empty and len(a) == 0 both test).
+func bytesEmpty(a *Term) *Term {
+	return Eq(UF("bytes_len", SInt, a), IntLit(0))
+}
